@@ -2,7 +2,7 @@ from kit.runner import Cond
 from . import _c
 
 LEVEL = "other"
-FUNCTIONS = _c.FUNCTIONS
+FUNCTIONS = _c.FUNCTIONS + ["gherkin.token_matcher.TokenMatcher.match_StepLine / _change_dialect / reset (keyword -> keyword type)"]
 ASSUMPTIONS = ["keyword types are drawn from the five-word vocabulary the matcher produces (C05 decides that the matcher produces exactly these)",
                "<= 2 background steps + <= 3 scenario steps; longer step lists are outside the claim"]
 EXPLANATION = ("The REAL Compiler runs under CrossHair on a scenario (plain and outline with two rows, at feature level and inside a rule) whose five step "
@@ -21,5 +21,12 @@ def conditions(tier):
     for k3 in range(5):
         cs.append(Cond(_c.M, "keyword_types", {"nbg": 0, "nsc": 3, "fix": {"k1": 0, "k2": 0, "k3": k3}}, T=300))
         cs.append(Cond(_c.M, "keyword_types", {"nbg": 1, "nsc": 2, "rule": True, "fix": {"k2": 0, "k5": 0, "k3": k3}}, T=300))
+    # matcher side: the keyword type a step line gets (category of the keyword; Unknown when listed in several), also after a
+    # '# language:' header naming the dialect already in force and on a reused matcher whose previous document used another dialect
+    for d, o, mode in (("en", "fr", "default"), ("en", "fr", "same"), ("en", "fr", "history"), ("fr", "en", "header")) + \
+            (() if tier == "quick" else (("ht", "en", "default"), ("ka", "en", "default"), ("sk", "en", "history2"))):
+        cs.append(Cond("harness.kw", "keyword_in_role", {"dialect": d, "mode": mode, "other": o, "maxlen": 0, "steps_only": True}, T=900, reach=["in-role"],
+                       label="kw.step_keyword_types[%s,%s]" % (d, mode)))
+    cs += _c.source_level(tier)[::2]
     cs.append(Cond(_c.M, "twin_types_never_unknown", T=60, expect="cex"))
     return cs
